@@ -88,6 +88,7 @@ func (x *Exec) call(fr *Frame, st *State, in ssa.Instruction, c *ssa.CallCommon,
 			x.mustNot(fr, st, in, Eq(recv.Tag, Num(0)), "nil-interface-call")
 		}
 		x.note("unmodelled interface call " + name)
+		x.havocPointees(st, args, name)
 		k(st, resultOf(x.freshResultsAssumed(st, sig)))
 		return
 	}
@@ -270,7 +271,32 @@ func (x *Exec) callStatic(fr *Frame, st *State, in ssa.Instruction, fn *ssa.Func
 		return
 	}
 	x.note("unmodelled call " + name)
+	x.havocPointees(st, args, name)
 	k(st, tupleOf(sig, x.freshResultsAssumed(st, sig)))
+}
+
+// havocPointees: a callee without model may write through the pointers it is given: the objects its pointer arguments point
+// to directly get unknown contents (objects reachable only through further pointers are not touched: stated abstraction).
+func (x *Exec) havocPointees(st *State, args []*Val, callee string) {
+	for _, a := range args {
+		if a == nil || a.K != VPtr || a.Ptr == nil || len(a.Ptr.Path) != 0 {
+			continue
+		}
+		switch a.Ptr.Base {
+		case PCell:
+			if t, ok := st.CellTypes[a.Ptr.Cell]; ok {
+				st.Cells[a.Ptr.Cell] = x.freshLike(st, &Val{Typ: t}, "out")
+				x.note("out-parameter of unmodelled call " + callee + ": pointee set to an unknown value")
+			}
+		case PObj:
+			if a.Ptr.Root != nil && classify(a.Ptr.Root) == VStruct {
+				nv := x.freshLike(st, &Val{Typ: a.Ptr.Root}, "out")
+				if err := st.storeObj(a.Ptr.Root, a.T, "", nv); err == nil {
+					x.note("out-parameter of unmodelled call " + callee + ": pointee set to an unknown value")
+				}
+			}
+		}
+	}
 }
 
 func (x *Exec) runInline(fr *Frame, st *State, in ssa.Instruction, fn *ssa.Function, args []*Val, free []*Val, sig *types.Signature, k func(st *State, res *Val)) {
